@@ -187,7 +187,7 @@ def check(case):
                 # there is a reference to a shape that is not in the t1 document), so the shape lost all its constraints and was
                 # removed as empty itself
                 S_ = next((k_ for k_, v_ in sm_label_of.items() if v_ == lab), None)
-                if S_ is not None and all(k_[1] == ("nonliteral",) and oracle._goneref_sig(sm_model, S_, k_[0], t1, a, sm_label_of, cfg.get("keep_less_specific", True))
+                if S_ is not None and all(k_[1] == ("nonliteral",) and oracle._goneref_sig(sm_model, S_, k_[0], t1, a, sm_label_of, cfg.get("keep_less_specific", True), cfg.get("disable_or_statements", True) is False)
                                           for k_ in cb.cons):
                     kf_goneref.append((lab, "whole shape", t1, t2))
                     continue
@@ -202,7 +202,7 @@ def check(case):
                 # is printed.  Excused only when every vanished key has exactly that signature at t1.
                 S_ = next((k_ for k_, v_ in sm_label_of.items() if v_ == lab), None)
                 gone = kb - ka
-                if S_ is not None and all(k_[1] == ("nonliteral",) and oracle._goneref_sig(sm_model, S_, k_[0], t1, a, sm_label_of, cfg.get("keep_less_specific", True))
+                if S_ is not None and all(k_[1] == ("nonliteral",) and oracle._goneref_sig(sm_model, S_, k_[0], t1, a, sm_label_of, cfg.get("keep_less_specific", True), cfg.get("disable_or_statements", True) is False)
                                           for k_ in gone):
                     kf_goneref.append((lab, sorted(map(str, gone)), t1, t2))
                     continue
